@@ -120,6 +120,9 @@ fn scenarios(thorough: bool) -> Vec<Sc> {
                 v.push(base(kind, Variant::Plain, site, P::Awaits, closer, if site == Site::Handle { 2 } else { 1 }, pg));
             }
         }
+        // a stopper, a drainer and a killer race: whichever lands first, nothing starts after kill() returned
+        v.push(base(kind, Variant::Plain, Site::Handle, P::Awaits, Closer::StopDrainKill, 2, false));
+        v.push(base(kind, Variant::Plain, Site::PostStop, P::Awaits, Closer::StopDrainKill, 1, false));
         // supervision events are handled before messages
         v.push(base(kind, Variant::Plain, Site::Handle, P::Awaits, Closer::None, 2, true));
         v.push(base(kind, Variant::Plain, Site::Handle, P::SleepsMs, Closer::Stop(None), 2, true));
